@@ -461,14 +461,22 @@ Definition remove_tip_heap (tipname : string) (tip : nat) (h : heap) : hres heap
                 HErr ("After removing the tip " ++ tipname ++ " connected to the root, RemoveTip could not find a new node to set as a root (the children of the root are either tips or single nodes). You can run gotree collapse single or call RemoveSingleNodes.")
               else HErr ("The tree after tip removal is only made of two tips after removing tip " ++ tipname)
             else HErr ("Branches of internal node are not oriented as they should be while removing tip " ++ tipname));
-        do h <- (if negb (qeqb length1 nilv) || negb (qeqb length2 nilv)
-                 then set_info h e (fun i => mkE (qmax 0%Q length1 + qmax 0%Q length2)%Q (esup i) (epv i) (ecom i))
+        (* math.Max(0,l1)+math.Max(0,l2) and math.Max(sup1,sup2) are symmetric on floats; the model
+           lists the branch nearer the root first, as Model/Prune.v [merge_edge] does *)
+        let swap := negb dir1 && negb dir2 in
+        let la := if swap then length2 else length1 in
+        let lb := if swap then length1 else length2 in
+        let sa := if swap then sup2 else sup1 in
+        let sb := if swap then sup1 else sup2 in
+        do h <- (if negb (qeqb la nilv) || negb (qeqb lb nilv)
+                 then set_info h e (fun i => mkE (qmax 0%Q la + qmax 0%Q lb)%Q (esup i) (epv i) (ecom i))
                  else HOk h);
         do hn1 <- get_node h n1;
         do hn2 <- get_node h n2;
-        do h <- (if (negb (qeqb sup1 nilv) || negb (qeqb sup2 nilv)) &&
-                    Nat.ltb 1 (length (hneigh hn1)) && Nat.ltb 1 (length (hneigh hn2))
-                 then set_info h e (fun i => mkE (elen i) (qmax sup1 sup2) (epv i) (ecom i))
+        do h <- (if (negb (qeqb sa nilv) || negb (qeqb sb nilv)) &&
+                    Nat.ltb 1 (length (hneigh (if swap then hn2 else hn1))) &&
+                    Nat.ltb 1 (length (hneigh (if swap then hn1 else hn2)))
+                 then set_info h e (fun i => mkE (elen i) (qmax sa sb) (epv i) (ecom i))
                  else HOk h);
         del_node internal h
       else HOk h.
